@@ -16,6 +16,7 @@ package main
 // A source without an entry is a failed obligation (ordind:uncovered).
 
 import (
+	"go/constant"
 	"sort"
 	"crypto/sha256"
 	"encoding/json"
@@ -942,4 +943,73 @@ func goCaptureObligations(cc *checkCtx, w *World) *extraResult {
 	ex.Coverage["goroutine_captures"] = sites
 	ex.Assumptions = append(ex.Assumptions, "goroutine capture rule: syntactic; objects reached through captured pointers other than sync.* values and lock-guarded structs are not tracked")
 	return ex
+}
+
+// ---- regular-expression pins: the contracts treat regexp matching as opaque and ASSUME what each pattern of the
+// repository matches (contracts/regex_pins.json). The assumption is about one pattern text: when the pattern of a
+// pinned variable changes (or the variable disappears) the assumption is stale, which is reported.
+type regexPin struct {
+	Var        string   `json:"var"` // <package dir>.<variable>
+	Pattern    string   `json:"pattern"`
+	Props      []string `json:"props"`
+	Assumption string   `json:"assumption"`
+}
+
+func regexPinObligations(p *PropDef, w *World) ([]*Obligation, []string) {
+	data, err := os.ReadFile(filepath.Join(verifDir, "contracts", "regex_pins.json"))
+	if err != nil {
+		return nil, nil
+	}
+	var pins []regexPin
+	if err := json.Unmarshal(data, &pins); err != nil {
+		return []*Obligation{presetObligation("regex_pins.json#parse", "", "", err.Error(), "not-generated")}, nil
+	}
+	var out []*Obligation
+	var notes []string
+	for _, pin := range pins {
+		serves := false
+		for _, id := range pin.Props {
+			if id == p.ID {
+				serves = true
+			}
+		}
+		if !serves {
+			continue
+		}
+		i := strings.LastIndex(pin.Var, ".")
+		pkg := w.Pkgs[repoModule+"/"+pin.Var[:i]]
+		name := pin.Var[i+1:]
+		found, pos := "", ""
+		if pkg != nil {
+			for _, f := range pkg.Syntax {
+				ast.Inspect(f, func(n ast.Node) bool {
+					vs, ok := n.(*ast.ValueSpec)
+					if !ok {
+						return true
+					}
+					for k, nm := range vs.Names {
+						if nm.Name != name || k >= len(vs.Values) {
+							continue
+						}
+						if call, ok := vs.Values[k].(*ast.CallExpr); ok && len(call.Args) == 1 {
+							if tv, ok := pkg.TypesInfo.Types[call.Args[0]]; ok && tv.Value != nil && tv.Value.Kind() == constant.String {
+								found = constant.StringVal(tv.Value)
+								pos = w.pos(nm.Pos())
+							}
+						}
+					}
+					return true
+				})
+			}
+		}
+		oname := repoModule + "/" + pin.Var + "#regex:pin"
+		if found == pin.Pattern {
+			out = append(out, &Obligation{Name: oname, Func: repoModule + "/" + pin.Var, Kind: "post", Pos: pos, Text: "pattern unchanged", Result: "unsat", Solver: "syntactic", Preset: true})
+			notes = append(notes, fmt.Sprintf("regular expression %s = %q: %s (assumed; pinned to the pattern text)", pin.Var, pin.Pattern, pin.Assumption))
+		} else {
+			out = append(out, presetObligation(oname+":stale", repoModule+"/"+pin.Var, pos,
+				fmt.Sprintf("the contracts assume what %s matches (%s); that was written for the pattern %q, the pattern is now %q", pin.Var, pin.Assumption, pin.Pattern, found), "stale-assumption"))
+		}
+	}
+	return out, notes
 }
